@@ -165,6 +165,11 @@ fn parse_codepoints(s: &str) -> Result<ucd_parse::Codepoints, Error> {
         let range = parse_codepoint_range(s)?;
         Ok(ucd_parse::Codepoints::Range(range))
     } else {
+        // `Codepoint::from_str` relies on `u32::from_str_radix` which also
+        // accepts a leading `+` sign, that is not a valid code point
+        if !s.bytes().all(|b| b.is_ascii_hexdigit()) {
+            return err!("invalid codepoint: '{}'", s);
+        }
         let cp = s.parse()?;
         Ok(ucd_parse::Codepoints::Single(cp))
     }
